@@ -365,9 +365,29 @@ func r034(c *an.Ctx, rule string) {
 				continue
 			}
 			idOK := fields["Id"] != nil && (fields["Id"] == del.Call.Args[1] || an.SameValues(fields["Id"], del.Call.Args[1]))
-			_, _, f, isBody := an.FieldOf(fields["OldValue"])
-			c.Check(idOK && isBody && f == "body", rule, cons+" carries the removed item", s.Pos(), "Id is the deleted key, OldValue the removed body",
-				"the REMOVE event does not carry the deleted key and the removed item's body")
+			base, _, f, isBody := an.FieldOf(fields["OldValue"])
+			// ... the body of the very item the locked re-check has just identified as still being stored (the item is
+			// re-read on every retry: a body remembered from before the loop may be a version that was replaced since)
+			current := false
+			for _, e := range an.GuardingEdges(vc.Inner) {
+				bo, isBO := e.If.Cond.(*ssa.BinOp)
+				if !isBO || (bo.Op != token.EQL && bo.Op != token.NEQ) {
+					continue
+				}
+				if !strings.HasSuffix(an.NamedTypeName(bo.X.Type()), "/pkg/resource.item") {
+					continue
+				}
+				if (bo.Op == token.EQL) != e.Branch {
+					continue
+				}
+				for _, side := range []ssa.Value{bo.X, bo.Y} {
+					if base != nil && (side == base || an.SameValue(side, base)) {
+						current = true
+					}
+				}
+			}
+			c.Check(idOK && isBody && f == "body" && current, rule, cons+" carries the removed item", s.Pos(), "Id is the deleted key, OldValue the removed body",
+				"the REMOVE event does not carry the deleted key and the body of the item that the locked identity re-check found stored (e.g. it is built before the retry loop from the first read): after a retry subscribers are told that a version was removed which had already been replaced, and a filtered subscriber whose predicate excluded that stale version never sees the removal")
 		}
 	}
 }
